@@ -478,12 +478,11 @@ def cc_part(ctx, d):
 
 
 def pv_part(ctx, d):
-    """Schedules with Config.PreVote (CheckQuorum in half of them): pre-candidates and
-    MsgPreVote/MsgPreVoteResp are outside the model, so these runs are MONITORED only: the safety
-    predicates are evaluated on the observed states of the real RawNodes."""
+    """Schedules with Config.PreVote (CheckQuorum in half of them): validated against RaftPV
+    (CheckQuorum angelically) and monitored; those that also call TransferLeader are monitored only."""
     batches = [(9000000, 250, 400)] if ctx.tier == "quick" else [(9000000, 10000, 400), (9500000, 200, 3000)]
     tot = ev = leaders = 0
-    vok = vev = vpre = vresp = 0
+    vok = vev = vpre = vresp = vcq = vsd = vleased = 0
     viol = None
     bi = 0
     for first, count, nev in batches:
@@ -514,6 +513,9 @@ def pv_part(ctx, d):
                     vev += int(kv["events"])
                     vpre += int(kv["precandidacies"])
                     vresp += int(kv["prevoteresp"])
+                    vcq += int(kv.get("checkquorum", 0))
+                    vsd += int(kv.get("stepdowns", 0))
+                    vleased += int(kv.get("leased", 0))
                 elif t[2] == "FAIL" and dev is None:
                     dev = (t[1], line)
             for line in (b / "monitor.txt").read_text().splitlines():
@@ -537,7 +539,7 @@ def pv_part(ctx, d):
                     viol = dict(kind="safety-violation", found_input=True, schedule=int(t[1]), seed=ctx.seed,
                                 with_prevote=True, first_deviation_from_model=(dev[1] if dev else None), reason=fail_reason(v2), verdict=v2, header=header,
                                 events=shr, trace_tail=trace.splitlines()[-14:],
-                                theorem="(PreVote/CheckQuorum are outside the model) safety predicates of C15 evaluated on the observed states of the real RawNodes",
+                                theorem="safety predicates of C15 (C15_pv_election_safety, C15_pv_log_matching, C15_pv_state_machine_safety, C15_pv_leader_completeness, C15_hardstate_monotone) evaluated on the observed states of the real RawNodes (schedule with Config.PreVote, possibly CheckQuorum / TransferLeader)",
                                 note=NOTE + "; header flags: 1 = Config.PreVote, 2 = Config.CheckQuorum; XPV/XPW = MsgPreVote/MsgPreVoteResp; role Q = pre-candidate")
             if viol is None and dev is not None:
                 kk, line = dev
@@ -562,6 +564,7 @@ def pv_part(ctx, d):
             k += c
     stats = dict(pv_validated_schedules=vok, pv_validated_events=vev, pv_precandidacies_validated=vpre,
                  pv_prevote_responses_delivered=vresp,
+                 pv_checkquorum_schedules_validated=vcq, pv_checkquorum_stepdowns=vsd, pv_checkquorum_vote_requests_ignored_in_lease=vleased,
                  pv_schedules=tot, pv_events=ev, pv_terms_with_a_leader=leaders,
                  pv_scope="; ".join("%d schedules x %d events" % (c, n) for _, c, n in batches))
     return stats, viol, None
@@ -603,20 +606,20 @@ def run(ctx):
     viol = None
     stats = {}
     if not b2:
-        stats, viol, qb = quorum_part(ctx, d)
-        broken = broken or qb
-        if viol is None and not qb:
-            st2, viol, sb = sim_part(ctx, d)
-            stats.update(st2)
-            broken = broken or sb
-        if viol is None and not broken:
-            st3, viol, cb = cc_part(ctx, d)
-            stats.update(st3)
-            broken = broken or cb
-        if viol is None and not broken:
-            st4, viol, pb_ = pv_part(ctx, d)
-            stats.update(st4)
-            broken = broken or pb_
+        # the four parts are independent (own scratch directories): run them side by side and
+        # report, in this fixed order, the first violation / broken tie
+        import concurrent.futures
+        parts = [("pq", quorum_part), ("ps", sim_part), ("pc", cc_part), ("pp", pv_part)]
+        for name, _ in parts:
+            (d / name).mkdir()
+        with concurrent.futures.ThreadPoolExecutor(max_workers=4) as ex:
+            futs = [ex.submit(fn, ctx, d / name) for name, fn in parts]
+            results = [f.result() for f in futs]
+        for st_, v_, b_ in results:
+            stats.update(st_)
+            if viol is None and not broken:
+                viol = v_
+                broken = broken or b_
     rc = 0
     if viol:
         lib.violation(PID, viol, found_input=viol.get("found_input", True))
@@ -643,7 +646,7 @@ def run(ctx):
         membership_change_exploration=dict(
             (k, v) for k, v in stats.items() if k.startswith("cc_")) or None,
         prevote_checkquorum_monitoring=dict((k, v) for k, v in stats.items() if k.startswith("pv_")) or None,
-        prevote_checkquorum_note="schedules with Config.PreVote = true (pre-vote responses are often kept in flight and re-delivered late; small election timeouts in half): those WITHOUT CheckQuorum (half) are validated event by event against the PreVote model RaftPV.exec_pv by the extracted check_step_pv (sound w.r.t. pxstep; the safety theorems C15_pv_* cover pxreachable) and counted in evaluations; those WITH CheckQuorum (leases, leader step-down on ticks; these schedules also call TransferLeader) are outside the model and MONITORED only; the safety predicates are evaluated on the observed states of all of them (raftrun monitor)",
+        prevote_checkquorum_note="schedules with Config.PreVote = true (pre-vote responses are often kept in flight and re-delivered late; small election timeouts in half), half of them with Config.CheckQuorum too: validated event by event against the PreVote model RaftPV.exec_pv by the extracted check_step_pv (sound w.r.t. pxstep; the safety theorems C15_pv_* cover pxreachable) and counted in evaluations.  CheckQuorum is covered ANGELICALLY: a tick may be the leader's step-down (event PvStepDown) and a delivered MsgVote/MsgPreVote may be ignored altogether (leader lease) - the model does not say when (no election clock), so CheckQuorum's liveness is not checked, its safety is (every choice is a step of pxstep).  A third of the CheckQuorum schedules also call TransferLeader: outside the model, MONITORED only (tracepv skips them); the safety predicates are evaluated on the observed states of all schedules (raftrun monitor)",
         membership_change_note="schedules with ProposeConfChange (add/remove a voter, joint add+remove with automatic leave; applied when committed) are (a) validated event by event against the membership-change model RaftCC.exec_cc by the extracted check_step_cc (exact equality of term/vote/commit/role/lead/log AND of the node's configuration; sound w.r.t. RaftCC.cxstep) — these events are counted in evaluations — and (b) monitored: the safety predicates are evaluated on the observed states.  The SAFETY theorems cover such runs only inside a family of pairwise-intersecting configurations (C15_cc_*_partial); the general chain argument of joint consensus is not proved.  A quarter of the schedules also add learners: outside the model, monitored only (tracecc skips them)",
         correspondence="(D) quorum.{MajorityConfig,JointConfig}.{CommittedIndex,VoteResult} (built from VERIF_REPO working tree) vs extracted Gallina majority_/joint_ functions, compared on every case; (V) raft.RawNode + MemoryStorage (built from VERIF_REPO) vs extracted check_step on every event",
     ))
